@@ -694,6 +694,11 @@ func buildAllPkgs(ctx *context, pkgs []*aPackage, verbose bool) ([]*aPackage, er
 				if err := buildPkg(ctx, aPkg, verbose); err != nil {
 					return err
 				}
+				if kind == cl.PkgPyModule && aPkg.LPkg != nil {
+					// the import in a binding package's init needs the interpreter too
+					aPkg.NeedPyInit = aPkg.LPkg.NeedPyInit
+					needPyInit = needPyInit || aPkg.NeedPyInit
+				}
 				if !aPkg.CacheHit {
 					if err := normalizeToArchive(ctx, aPkg, verbose); err != nil {
 						return err
